@@ -780,10 +780,59 @@ fn oracle_alt13(code: u16, t: &gillham::Table) -> Option<i64> {
     }
 }
 
+/// judge the BDS 0,5 label of one DF20 frame (header code `hdr`, payload altitude code `me_code13`); `seq` = the frames
+/// that carried the same payload before, for the witness
+fn judge_bds05_label(c: &mut Ctx, t: &gillham::Table, f: &[u8], hdr: u16, me_code13: u16, seq: &[String]) {
+    if let Some(v) = decode(c, f, "bds05-in-df20") {
+        let labelled = !v["bds05"].is_null();
+        let ha = oracle_alt13(hdr, t);
+        let ma = oracle_alt13(me_code13 & !0x40, t);
+        if labelled {
+            if ha.unwrap_or(0) == 0 && ma.unwrap_or(0) == 0 {
+                // 0 is both "0 ft" and "unavailable" in the 13-bit altitude API: indistinguishable, not judged
+                c.r.class("not-judged:bds05-label(0 ft vs unavailable header)");
+            } else if ha.is_some() && ha == ma {
+                c.r.class("ok:bds05-label(altitudes equal)");
+                c.r.distinct(((hdr as u64) << 20) ^ me_code13 as u64 ^ 0xb05);
+            } else {
+                let mut rp = json!({"frame": hexs(f), "field": "bds05-in-df20", "hdr": hdr, "me_code13": me_code13});
+                let sig = if seq.is_empty() { "C03:bds05-label:altitude-mismatch" } else { rp["sequence"] = json!(seq); "C03:bds05-label:altitude-mismatch:payload-seen-before" };
+                c.r.violation(sig, format!("DF20 {} is labelled bds05 although the payload altitude ({:?} ft) differs from the header altitude ({:?} ft){}", hexs(f), ma, ha, if seq.is_empty() { String::new() } else { format!("; the same payload was decoded before in {:?}", seq) }), rp);
+            }
+        } else {
+            c.r.class("ok:bds05-not-labelled");
+            if !seq.is_empty() {
+                c.r.class("ok:bds05-not-labelled:payload-labelled-before");
+            }
+        }
+    }
+}
+
 fn bds05_in_df20(c: &mut Ctx, a: &Args, rng: &mut Rng) {
     let t = gillham::table();
     let n = a.budget(300_000, 30_000_000);
+    // payloads seen before: a transponder repeats a register under changing headers (altitude, flight status); what a
+    // payload was labelled under one header must not decide its label under another one
+    let mut pool: Vec<([u8; 7], u16, Vec<String>, bool)> = vec![];
     for i in 0..n {
+        if i % 3 == 2 && !pool.is_empty() {
+            let k = rng.below(pool.len() as u64) as usize;
+            let (me, me_code13, seq, was_labelled) = pool[k].clone();
+            let hdr = match rng.below(4) {
+                0 | 1 => me_code13,
+                2 => me_code13 ^ (1 << rng.below(13)) & !0x40,
+                _ => frames::ac13_from_n(rng.range(41, 2047) as u16),
+            };
+            let f = frames::df20((i % 8) as u8, 0, 0, hdr, &me, ADDR);
+            judge_bds05_label(c, &t, &f, hdr, me_code13, if was_labelled { &seq } else { &[] });
+            let lab = hdr == me_code13 && oracle_alt13(hdr, &t).unwrap_or(0) != 0;
+            pool[k].2.push(hexs(&f));
+            pool[k].3 |= lab;
+            if pool[k].2.len() > 6 {
+                pool.swap_remove(k);
+            }
+            continue;
+        }
         let hdr = if i % 3 == 0 { frames::ac13_from_n(rng.range(41, 2047) as u16) } else { (rng.next() & 0x1fbf) as u16 };
         let me_code13 = match i % 4 {
             0 => hdr,                                   // same code -> label expected for legal codes
@@ -793,23 +842,10 @@ fn bds05_in_df20(c: &mut Ctx, a: &Args, rng: &mut Rng) {
         let tc = *rng.pick(&[9u8, 11, 13, 18, 20, 22]);
         let me = frames::me_airborne(tc, 0, 0, gillham::field13_to_12(me_code13), 0, (i & 1) as u8, rng.biased(17) as u32, rng.biased(17) as u32);
         let f = frames::df20(0, 0, 0, hdr, &me, ADDR);
-        if let Some(v) = decode(c, &f, "bds05-in-df20") {
-            let labelled = !v["bds05"].is_null();
-            let ha = oracle_alt13(hdr, &t);
-            let ma = oracle_alt13(me_code13 & !0x40, &t);
-            if labelled {
-                if ha.unwrap_or(0) == 0 && ma.unwrap_or(0) == 0 {
-                    // 0 is both "0 ft" and "unavailable" in the 13-bit altitude API: indistinguishable, not judged
-                    c.r.class("not-judged:bds05-label(0 ft vs unavailable header)");
-                } else if ha.is_some() && ha == ma {
-                    c.r.class("ok:bds05-label(altitudes equal)");
-                    c.r.distinct(((hdr as u64) << 20) ^ me_code13 as u64 ^ 0xb05);
-                } else {
-                    c.r.violation("C03:bds05-label:altitude-mismatch", format!("DF20 {} is labelled bds05 although the payload altitude ({:?} ft) differs from the header altitude ({:?} ft)", hexs(&f), ma, ha), json!({"frame": hexs(&f), "field": "bds05-in-df20"}));
-                }
-            } else {
-                c.r.class("ok:bds05-not-labelled");
-            }
+        judge_bds05_label(c, &t, &f, hdr, me_code13, &[]);
+        if pool.len() < 6 && rng.chance(0.3) && oracle_alt13(me_code13 & !0x40, &t).unwrap_or(0) != 0 {
+            let lab = hdr == me_code13;
+            pool.push((me, me_code13 & !0x40, vec![hexs(&f)], lab));
         }
     }
 }
@@ -870,7 +906,7 @@ fn positioned_one(c: &mut Ctx, frames: &[Vec<u8>], stamps: &[f64], reference: Op
 }
 
 pub fn run(a: &Args, r: &mut Report) {
-    r.rule = "per field: every code of the field (or the stated stratified sample in quick) is encoded by the independent standards-based encoder, with plausible companions for Comm-B registers, decoded by the real Message::try_from and read back from serde_json::to_value; compared with the physical value within one quantisation step (exactly, for integer-valued fields). the header fields in front of the judged field (flight status, downlink request, utility message; vertical status, sensitivity level, reply information) take all their values; before one frame in four the decoder is offered a truncated, empty or over-long input; in addition histories of 2-7 position reports of one aircraft go through decode_positions and every field of every record (the position set aside) must still be the one decoded from the record's own frame. distinct_nontrivial = distinct (field, code) pairs that round-tripped".into();
+    r.rule = "per field: every code of the field (or the stated stratified sample in quick) is encoded by the independent standards-based encoder, with plausible companions for Comm-B registers, decoded by the real Message::try_from and read back from serde_json::to_value; compared with the physical value within one quantisation step (exactly, for integer-valued fields). the header fields in front of the judged field (flight status, downlink request, utility message; vertical status, sensitivity level, reply information) take all their values; before one frame in four the decoder is offered a truncated, empty or over-long input; a DF20 payload that was labelled BDS 0,5 under a matching header comes back under other headers (same payload, up to 7 times) and is judged each time; in addition histories of 2-7 position reports of one aircraft go through decode_positions and every field of every record (the position set aside) must still be the one decoded from the record's own frame. distinct_nontrivial = distinct (field, code) pairs that round-tripped".into();
     r.assumptions.push("sentinel codes (0 = no information, 127 in the GNSS/baro difference, movement 0 / 125..127) are not judged".into());
     r.assumptions.push("Comm-B registers are judged inside the decoder's documented plausibility envelope only (roll <= 50 deg, GS <= 600 kt, TAS in [80,500], |GS-TAS| <= 200, IAS 1..500, Mach <= 1, |vrate| <= 6000 ft/min, consistent roll/turn-rate signs, IAS/Mach consistency)".into());
     r.assumptions.push("call signs: the decoder strips spaces; undefined 6-bit codes must give '#'".into());
@@ -883,6 +919,17 @@ pub fn run(a: &Args, r: &mut Report) {
             let stamps: Vec<f64> = v["replay"]["timestamps"].as_array().map(|t| t.iter().filter_map(|x| x.as_f64()).collect()).unwrap_or_default();
             let reference = v["replay"]["reference"].as_array().and_then(|p| Some([p.first()?.as_f64()?, p.get(1)?.as_f64()?]));
             positioned_one(&mut c, &frames, &stamps, reference, "replay");
+            return;
+        }
+        if let Some(seq) = v["replay"]["sequence"].as_array() {
+            // a payload seen before under other headers: decode the earlier frames in order, then judge the last one
+            for x in seq {
+                if let Some(Ok(b)) = x.as_str().map(hex::decode) {
+                    let _ = guarded(|| Message::try_from(b.as_slice()));
+                }
+            }
+            let t = gillham::table();
+            judge_bds05_label(&mut c, &t, &f, v["replay"]["hdr"].as_u64().unwrap_or(0) as u16, v["replay"]["me_code13"].as_u64().unwrap_or(0) as u16, &["replay".to_string()]);
             return;
         }
         if let Some(js) = decode(&mut c, &f, "replay") {
@@ -914,6 +961,6 @@ pub fn run(a: &Args, r: &mut Report) {
     bds05_in_df20(&mut c, a, &mut rng);
     c.r.sample(json!({"field": "groundspeed/track (BDS 0,9 subtype 1)", "frame": hexs(&frames::df17(5, AA, &frames::me_velocity_gs(VelCommon { subtype: 1, vr: 1, diff: 1, ..Default::default() }, 1, 10, 0, 160))), "encoded": {"ew": -9, "ns": 159}}));
     c.r.sample(json!({"field": "selected_mcp (BDS 4,0 in DF20)", "frame": hexs(&frames::df20(0, 0, 0, frames::ac13_from_n(1440), &frames::mb_bds40(Bds40 { mcp: Some(2250), ..Default::default() }), ADDR)), "encoded_ft": 36000}));
-    let mand = ["ok:aa:DF17", "ok:aa:DF18", "ok:aa:DF11", "ok:callsign:BDS08", "ok:callsign:BDS20/DF20", "ok:callsign:BDS20/DF21", "ok:altitude:BDS05", "ok:altitude:DF4", "ok:altitude:DF20", "ok:squawk:DF5", "ok:squawk:DF21", "ok:squawk:BDS61", "ok:groundspeed:BDS09", "ok:track:BDS09", "ok:heading:BDS09:st3", "ok:IAS:BDS09:st3", "ok:TAS:BDS09:st3", "ok:vertical_rate:BDS09", "ok:geo_minus_baro:BDS09", "ok:movement:BDS06", "ok:track:BDS06", "ok:selected_altitude:BDS62", "ok:barometric_setting:BDS62", "ok:selected_heading:BDS62", "ok:selected_mcp:BDS40", "ok:barometric_setting:BDS40", "ok:roll:BDS50", "ok:track:BDS50", "ok:groundspeed:BDS50", "ok:TAS:BDS50", "ok:track_rate:BDS50", "ok:heading:BDS60", "ok:IAS:BDS60", "ok:Mach:BDS60", "ok:vrate_barometric:BDS60", "ok:vrate_inertial:BDS60", "ok:bds05-label(altitudes equal)", "ok:bds05-not-labelled", "positioned:fields-unchanged:with-decoded-position"];
+    let mand = ["ok:aa:DF17", "ok:aa:DF18", "ok:aa:DF11", "ok:callsign:BDS08", "ok:callsign:BDS20/DF20", "ok:callsign:BDS20/DF21", "ok:altitude:BDS05", "ok:altitude:DF4", "ok:altitude:DF20", "ok:squawk:DF5", "ok:squawk:DF21", "ok:squawk:BDS61", "ok:groundspeed:BDS09", "ok:track:BDS09", "ok:heading:BDS09:st3", "ok:IAS:BDS09:st3", "ok:TAS:BDS09:st3", "ok:vertical_rate:BDS09", "ok:geo_minus_baro:BDS09", "ok:movement:BDS06", "ok:track:BDS06", "ok:selected_altitude:BDS62", "ok:barometric_setting:BDS62", "ok:selected_heading:BDS62", "ok:selected_mcp:BDS40", "ok:barometric_setting:BDS40", "ok:roll:BDS50", "ok:track:BDS50", "ok:groundspeed:BDS50", "ok:TAS:BDS50", "ok:track_rate:BDS50", "ok:heading:BDS60", "ok:IAS:BDS60", "ok:Mach:BDS60", "ok:vrate_barometric:BDS60", "ok:vrate_inertial:BDS60", "ok:bds05-label(altitudes equal)", "ok:bds05-not-labelled", "ok:bds05-not-labelled:payload-labelled-before", "positioned:fields-unchanged:with-decoded-position"];
     c.r.extra.insert("mandatory".into(), json!(mand.to_vec()));
 }
